@@ -94,10 +94,12 @@ const V_UNIVERSAL: u8 = 4;
 
 // ---------------------------------------------------------------------------------------------------------------------
 // recording Serializer
-pub struct Log { ev: Vec<Ent<'static>>, begun: u8, ended: u8, name_ok: u8, len_decl: usize, late: u8, skipped: u8, top_other: u8, some_wrapped: u8 }
+pub struct Log { ev: [Ent<'static>; 8], n: usize, begun: u8, ended: u8, name_ok: u8, len_decl: usize, late: u8, skipped: u8, top_other: u8, some_wrapped: u8 }
 impl Log {
     fn new() -> RefCell<Log> {
-        RefCell::new(Log { ev: Vec::with_capacity(8), begun: 0, ended: 0, name_ok: 0, len_decl: 0x5eed, late: 0, skipped: 0, top_other: 0, some_wrapped: 0 })
+        // a local array written at concrete indices (a Vec on the heap loses CBMC's constant propagation of the event kinds)
+        let e = || Ent { key: "", via: 0, vk: V_OTHER, s: String::new(), t: 0 };
+        RefCell::new(Log { ev: [e(), e(), e(), e(), e(), e(), e(), e()], n: 0, begun: 0, ended: 0, name_ok: 0, len_decl: 0x5eed, late: 0, skipped: 0, top_other: 0, some_wrapped: 0 })
     }
 }
 struct Val { vk: u8, s: String, t: i128 }
@@ -188,8 +190,10 @@ impl<'a> SerializeStruct for StructRec<'a> {
         kani::assume(via < 2);
         let mut l = self.log.borrow_mut();
         if l.ended != 0 { l.late += 1; }
-        assert!(l.ev.len() < 8, "[model] capacity: recording serializer holds 8 events");
-        l.ev.push(Ent { key, via, vk: v.vk, s: v.s, t: v.t });
+        assert!(l.n < 8, "[model] capacity: recording serializer holds 8 events");
+        let i = l.n;
+        l.ev[i] = Ent { key, via, vk: v.vk, s: v.s, t: v.t };
+        l.n = i + 1;
         Ok(())
     }
     fn skip_field(&mut self, _key: &'static str) -> Result<(), E> { self.log.borrow_mut().skipped += 1; Ok(()) }
@@ -211,7 +215,10 @@ impl<'de, 'a> Deserializer<'de> for KeyDe<'a> {
     serde_core::forward_to_deserialize_any! { bool i8 i16 i32 i64 i128 u8 u16 u32 u64 u128 f32 f64 char str string bytes byte_buf option unit unit_struct
         newtype_struct seq tuple tuple_struct map struct enum identifier ignored_any }
 }
-/// a self-describing value (like a JSON value): a typed request that does not fit is answered with what the value is
+/// a self-describing value (like a JSON value): a typed request that does not fit is answered with what the value is.
+/// A Timestamp value (vk 2) is opaque: only `deserialize_i128` (the model Timestamp's own request) sees it; any other typed
+/// request for it is a type error of the format (this also keeps serde's default `visit_i128`, which formats the number
+/// into its error message, out of the harness: core::fmt on an i128 is hundreds of loop iterations for CBMC).
 struct ValDe<'a> { e: &'a Ent<'a> }
 impl<'de, 'a> Deserializer<'de> for ValDe<'a> {
     type Error = E;
@@ -219,7 +226,7 @@ impl<'de, 'a> Deserializer<'de> for ValDe<'a> {
         match self.e.vk {
             V_NULL => v.visit_unit(),
             V_STR => v.visit_str(&self.e.s),
-            V_TS => v.visit_i128(self.e.t),
+            V_TS => Err(E { kind: E_TYPE, field: 255 }),
             V_UNIVERSAL => v.visit_unit(),
             _ => v.visit_u64(7),
         }
@@ -228,14 +235,18 @@ impl<'de, 'a> Deserializer<'de> for ValDe<'a> {
         if self.e.vk == V_NULL { v.visit_none() } else { v.visit_some(self) }
     }
     fn deserialize_i128<V: Visitor<'de>>(self, v: V) -> Result<V::Value, E> {
-        if self.e.vk == V_UNIVERSAL { v.visit_i128(self.e.t) } else { self.deserialize_any(v) }
+        if self.e.vk == V_UNIVERSAL || self.e.vk == V_TS { v.visit_i128(self.e.t) } else { self.deserialize_any(v) }
     }
     fn deserialize_string<V: Visitor<'de>>(self, v: V) -> Result<V::Value, E> {
         if self.e.vk == V_UNIVERSAL { v.visit_str(&self.e.s) } else { self.deserialize_any(v) }
     }
     fn deserialize_str<V: Visitor<'de>>(self, v: V) -> Result<V::Value, E> { self.deserialize_string(v) }
+    fn deserialize_ignored_any<V: Visitor<'de>>(self, v: V) -> Result<V::Value, E> {
+        // whatever the value is, it is skipped
+        if self.e.vk == V_STR { v.visit_str(&self.e.s) } else { v.visit_unit() }
+    }
     serde_core::forward_to_deserialize_any! { bool i8 i16 i32 i64 u8 u16 u32 u64 u128 f32 f64 char bytes byte_buf unit unit_struct
-        newtype_struct seq tuple tuple_struct map struct enum identifier ignored_any }
+        newtype_struct seq tuple tuple_struct map struct enum identifier }
 }
 struct ScriptMap<'a> { ents: &'a [Ent<'a>], n: usize, pos: usize, g: &'a Ghost }
 impl<'de, 'a> MapAccess<'de> for ScriptMap<'a> {
@@ -317,7 +328,7 @@ fn serialize_case(mask: u8) {
     let mut f = 0;
     while f < 7 {
         if mask & (1 << f) != 0 {
-            if idx < l.ev.len() {
+            if idx < l.n {
                 let e = &l.ev[idx];
                 order_ok &= bytes_eq(e.key.as_bytes(), REG[f].as_bytes());
                 if is_str_field(f) {
@@ -334,13 +345,13 @@ fn serialize_case(mask: u8) {
     }
     let mut no_null = true;
     let mut i = 0;
-    while i < l.ev.len() { no_null &= l.ev[i].vk != V_NULL; i += 1; }
+    while i < l.n { no_null &= l.ev[i].vk != V_NULL; i += 1; }
     vcheck_all!(
         (r.is_ok() && l.begun == 1 && l.ended == 1 && l.late == 0 && l.top_other == 0, "[C14] RegisteredClaims serialises as exactly one struct (JSON object), begun once, ended once, nothing after the end"),
-        (l.ev.len() == idx, "[C14] serialisation emits exactly as many members as there are present claims (nothing for an absent claim)"),
+        (l.n == idx, "[C14] serialisation emits exactly as many members as there are present claims (nothing for an absent claim)"),
         (order_ok, "[C14] serialisation emits the present claims in declaration order iss, sub, aud, exp, nbf, iat, jti under exactly those names; strings byte for byte, timestamps in the Timestamp's own serde form"),
         (no_null, "[C14] an absent claim is omitted, never serialised as null"),
-        (l.name_ok == 1 && l.len_decl >= l.ev.len(), "[C14] the struct is announced as RegisteredClaims with a member count not below the number of members emitted"),
+        (l.name_ok == 1 && l.len_decl >= l.n, "[C14] the struct is announced as RegisteredClaims with a member count not below the number of members emitted"),
     );
 }
 macro_rules! mask_harnesses {
@@ -374,7 +385,7 @@ fn roundtrip_case(mask: u8) {
     let (log, r) = record(&c);
     let l = log.borrow();
     let g = Ghost::new();
-    let n = l.ev.len();
+    let n = l.n;
     let back = play(&l.ev, n, &g);
     let ok = match &back { Ok(d) => same_claims(d, &c), Err(_) => false };
     vcheck_all!(
@@ -385,10 +396,14 @@ fn roundtrip_case(mask: u8) {
     core::mem::forget(back);
 }
 mask_harnesses!(roundtrip_case:
-    roundtrip_p000 => 0..8, roundtrip_p008 => 8..16, roundtrip_p016 => 16..24, roundtrip_p024 => 24..32,
-    roundtrip_p032 => 32..40, roundtrip_p040 => 40..48, roundtrip_p048 => 48..56, roundtrip_p056 => 56..64,
-    roundtrip_p064 => 64..72, roundtrip_p072 => 72..80, roundtrip_p080 => 80..88, roundtrip_p088 => 88..96,
-    roundtrip_p096 => 96..104, roundtrip_p104 => 104..112, roundtrip_p112 => 112..120, roundtrip_p120 => 120..128);
+    roundtrip_p000 => 0..4, roundtrip_p004 => 4..8, roundtrip_p008 => 8..12, roundtrip_p012 => 12..16,
+    roundtrip_p016 => 16..20, roundtrip_p020 => 20..24, roundtrip_p024 => 24..28, roundtrip_p028 => 28..32,
+    roundtrip_p032 => 32..36, roundtrip_p036 => 36..40, roundtrip_p040 => 40..44, roundtrip_p044 => 44..48,
+    roundtrip_p048 => 48..52, roundtrip_p052 => 52..56, roundtrip_p056 => 56..60, roundtrip_p060 => 60..64,
+    roundtrip_p064 => 64..68, roundtrip_p068 => 68..72, roundtrip_p072 => 72..76, roundtrip_p076 => 76..80,
+    roundtrip_p080 => 80..84, roundtrip_p084 => 84..88, roundtrip_p088 => 88..92, roundtrip_p092 => 92..96,
+    roundtrip_p096 => 96..100, roundtrip_p100 => 100..104, roundtrip_p104 => 104..108, roundtrip_p108 => 108..112,
+    roundtrip_p112 => 112..116, roundtrip_p116 => 116..120, roundtrip_p120 => 120..124, roundtrip_p124 => 124..128);
 
 // ---------------------------------------------------------------------------------------------------------------------
 // scripted maps: `n` members (concrete), keys symbolic over NAMES, key delivery (str/bytes) symbolic, value kinds symbolic
@@ -405,7 +420,8 @@ fn in_range(t: i128) -> bool { MIN_NS <= t && t <= MAX_NS }
 fn well_typed(f: u8, e: &Ent<'_>) -> bool {
     if e.vk == V_NULL { true } else if is_str_field(f as usize) { e.vk == V_STR } else { e.vk == V_TS && in_range(e.t) }
 }
-fn script_case(n: usize) {
+/// returns (accepted, duplicate reported, some registered member ill-typed, some registered key repeated, keys)
+fn script_case(n: usize) -> (bool, bool, bool, bool, [u8; 4]) {
     let ks: [u8; 4] = kani::any();
     kani::assume(ks[0] < NK && ks[1] < NK && ks[2] < NK && ks[3] < NK);
     let ents = [any_ent(ks[0], 1), any_ent(ks[1], 2), any_ent(ks[2], 0), any_ent(ks[3], 3)];
@@ -474,25 +490,43 @@ fn script_case(n: usize) {
         (r.is_err() || (g.vals.get() as usize == n && g.keys.get() as usize == n + 1), "[C14] a successful deserialisation has consumed every member and asked for keys until the end"),
         (g.struct_call.get() == 0 || g.fields_ok.get() == 1, "[C14] deserialize_struct is asked for RegisteredClaims with the seven registered names"),
     );
-    if n >= 2 {
-        kani::cover!(r.is_ok() && ks[0] >= 7 && ks[1] < 7, "unknown member followed by a registered one, accepted");
-        kani::cover!(matches!(&r, Err(e) if e.kind == E_DUP), "duplicate reported");
-        kani::cover!(r.is_ok() && dup_any, "null followed by a value for the same claim is accepted (last wins)");
-        kani::cover!(r.is_ok() && ks[0] > ks[1] && ks[0] < 7, "members out of declaration order, accepted");
-    }
-    if n >= 1 { kani::cover!(r.is_err() && ill, "wrong type reported"); }
+    let out = (r.is_ok(), matches!(&r, Err(e) if e.kind == E_DUP), ill, dup_any, ks);
     core::mem::forget(r);
+    out
 }
-#[kani::proof] #[kani::unwind(20)] pub fn deserialize_script_n0() { script_case(0); kani::cover!(true, "harness end reachable"); }
-#[kani::proof] #[kani::unwind(20)] pub fn deserialize_script_n1() { script_case(1); kani::cover!(true, "harness end reachable"); }
-#[kani::proof] #[kani::unwind(20)] pub fn deserialize_script_n2() { script_case(2); kani::cover!(true, "harness end reachable"); }
-#[kani::proof] #[kani::unwind(20)] pub fn deserialize_script_n3() { script_case(3); kani::cover!(true, "harness end reachable"); }
-#[kani::proof] #[kani::unwind(20)] pub fn deserialize_script_n4() { script_case(4); kani::cover!(true, "harness end reachable"); }
+fn script_covers(o: (bool, bool, bool, bool, [u8; 4])) {
+    let (ok, dup, ill, dup_any, ks) = o;
+    kani::cover!(ok && ks[0] >= 7 && ks[1] < 7, "unknown member followed by a registered one, accepted");
+    kani::cover!(dup, "duplicate reported");
+    kani::cover!(ok && dup_any, "null followed by a value for the same claim is accepted (last wins)");
+    kani::cover!(ok && ks[0] > ks[1] && ks[0] < 7, "members out of declaration order, accepted");
+    kani::cover!(!ok && ill, "wrong type reported");
+}
+#[kani::proof] #[kani::unwind(20)] pub fn deserialize_script_n0() { let o = script_case(0); kani::cover!(o.0, "the empty map is accepted"); kani::cover!(true, "harness end reachable"); }
+#[kani::proof] #[kani::unwind(20)] pub fn deserialize_script_n1() { let o = script_case(1); kani::cover!(o.0); kani::cover!(!o.0 && o.2, "wrong type reported"); kani::cover!(true, "harness end reachable"); }
+#[kani::proof] #[kani::unwind(20)] pub fn deserialize_script_n2() { script_covers(script_case(2)); kani::cover!(true, "harness end reachable"); }
+#[kani::proof] #[kani::unwind(20)] pub fn deserialize_script_n3() { script_covers(script_case(3)); kani::cover!(true, "harness end reachable"); }
+#[kani::proof] #[kani::unwind(20)] pub fn deserialize_script_n4() { script_covers(script_case(4)); kani::cover!(true, "harness end reachable"); }
 
 // ---------------------------------------------------------------------------------------------------------------------
 /// member order is irrelevant: a 3-member map with pairwise different keys gives the same result in all 6 orders
 /// (reversal and rotation generate S3; the claim is for ALL such maps, so invariance under both is invariance under S3)
 fn clone_ent(e: &Ent<'static>) -> Ent<'static> { Ent { key: e.key, via: e.via, vk: e.vk, s: e.s.clone(), t: e.t } }
+#[kani::proof] #[kani::unwind(20)]
+pub fn deserialize_order_independent_n2() {
+    let ks: [u8; 2] = kani::any();
+    kani::assume(ks[0] < NK && ks[1] < NK && ks[0] != ks[1]);
+    let a = [any_ent(ks[0], 1), any_ent(ks[1], 2)];
+    let swp = [clone_ent(&a[1]), clone_ent(&a[0])];
+    let (g0, g1) = (Ghost::new(), Ghost::new());
+    let (r0, r1) = (play(&a, 2, &g0), play(&swp, 2, &g1));
+    let same = match (&r0, &r1) { (Ok(p), Ok(q)) => same_claims(p, q), (Err(_), Err(_)) => true, _ => false };
+    vassert!(same, "[C14] deserialisation does not depend on member order (swapped map: same claims / same verdict)");
+    kani::cover!(r0.is_ok() && ks[0] < 7 && ks[1] < 7 && a[0].vk != V_NULL && a[1].vk != V_NULL, "two registered non-null members accepted");
+    kani::cover!(r0.is_err());
+    core::mem::forget((r0, r1));
+    kani::cover!(true, "harness end reachable");
+}
 #[kani::proof] #[kani::unwind(20)]
 pub fn deserialize_order_independent_n3() {
     let ks: [u8; 3] = kani::any();
@@ -611,7 +645,7 @@ pub fn canary_serde() {
     let (log, r) = record(&c);
     let l = log.borrow();
     let g = Ghost::new();
-    let back = play(&l.ev, l.ev.len(), &g);
+    let back = play(&l.ev, l.n, &g);
     let differs = match &back { Ok(d) => !same_claims(d, &c), Err(_) => true };
     vassert!(differs, "canary: must fail");
     core::mem::forget(back);
